@@ -36,8 +36,12 @@ OPEN_STATEMENTS = [
     'number_preserving_sparse_operator_sound (matrix = compression of the operator to the determinant basis) as one statement: '
     'not assembled; its ingredients are proved: the basis enumeration for both flags (iterate_basis_spec_*), injectivity of the '
     'integer encoding (encode_det_injective), the lookup = membership in the basis with the position (lookup_sound), the sign / '
-    'target loop = Spec action (build_term_op_sound); the occupied / unoccupied pre-filter for normal-ordered terms and the '
-    'summation over terms are covered by the number-preserving stream (every entry against Spec.melF)',
+    'target loop = Spec action (build_term_op_sound), and these assembled for one term (build_term_op_entries: exactly the '
+    'entries (position of the target determinant, s, sign exponent) for the determinants passing the pre-filter; '
+    'build_term_op_entries_spec: Spec sign and Spec image), and the pre-filter passes exactly the states on which a '
+    'normal-ordered term with distinct creation and distinct annihilation modes does not vanish (prefilter_exact); the '
+    'summation of the entries over the terms into the sparse matrix (and that normal_ordered yields such terms: another '
+    'property) is covered by the number-preserving stream (every entry against Spec.melF)',
     'expectation_cbs_list_sound: expectation value = <s|F|s> for normal-ordered operators with at most two-body terms: proved '
     'are the agreement of the vector and list conventions (expectation_vector_is_list) and the Spec diagonal elements of the '
     'three kinds of terms the function reads (expectation_terms_sound); the summation over the dictionary is not',
